@@ -295,12 +295,17 @@ Fixpoint all_some {A} (l : list (option A)) : option (list A) :=
   | None :: _ => None
   end.
 
-(* the write triggered by PTouch / at the end: `.data` compacts the extractor IN PLACE when nothing is set *)
-Definition touch (s : state) : state :=
-  match s with
-  | SLazy x [] => SLazy (contiguous x) []
-  | _ => s
-  end.
+(* the write triggered by PTouch / at the end: TextThroughputExtractor.data compacts the extractor IN PLACE when nothing is
+   set; BamBufferExtractor.data (since /repo 0f67f4c) only GATHERS the selected records' bytes and leaves the extractor as
+   it is (its record offsets are cached) *)
+Definition inplace_compaction (f : fmt) : bool := match f with FBam => false | _ => true end.
+Definition touch (f : fmt) (s : state) : state :=
+  if inplace_compaction f then
+    match s with
+    | SLazy x [] => SLazy (contiguous x) []
+    | _ => s
+    end
+  else s.
 
 Fixpoint run (f : fmt) (src : state) (p : prog) : option state :=
   match p with
@@ -328,7 +333,7 @@ Fixpoint run (f : fmt) (src : state) (p : prog) : option state :=
           end
       | None => None
       end
-  | PTouch p => match run f src p with Some s => Some (touch s) | None => None end
+  | PTouch p => match run f src p with Some s => Some (touch f s) | None => None end
   | PCat ps =>
       match all_some (map (run f src) ps) with
       | None => None
